@@ -182,3 +182,13 @@ V('C09', 'neg-failed-tx-tuple-reordered', 'edb/server/compiler/compiler.py', 'ed
   '(qlast.RollbackTransaction, qlast.RollbackToSavepoint)', '(qlast.RollbackToSavepoint, qlast.RollbackTransaction)', None)
 V('C09', 'lint-replace-result-dropped', D, TX + '_declare_savepoint',
   'sp_state = self._current._replace(id=sp_id, name=name)', 'sp_state = self._current\n        self._current._replace(id=sp_id, name=name)', 'C09.L', 'slips:discarded-update')
+V('C09', 'redeclare-drops-older-savepoint', D, TX + '_declare_savepoint',
+  '        self._savepoints[sp_id] = sp_state\n', '''        for old_id, old_sp in tuple(self._savepoints.items()):
+            if old_sp.name == name:
+                del self._savepoints[old_id]
+        self._savepoints[sp_id] = sp_state
+''', 'C09.R10', '_declare_savepoint:removes-savepoints')
+V('C09', 'update-schema-early-return', D, TX + 'update_schema',
+  '        global_schema = new_schema.get_global_schema()\n', '        if user_schema is self._current.user_schema:\n            return\n        global_schema = new_schema.get_global_schema()\n', 'C09.R10', 'update_schema:records-both-schemas')
+V('C09', 'tx-caches-derived-schema', D, TX + 'update_modaliases',
+  '        self._current = self._current._replace(modaliases=new_modaliases)', '        self._current = self._current._replace(modaliases=new_modaliases)\n        self._aliases_cache = new_modaliases', 'C09.R10', 'state-is-in-the-snapshot')
